@@ -156,6 +156,16 @@ def gen_assign(rng, n, exhaustive2=False):
                      (["t[a]", "a", "b"], ["b", "c", "a"])):
         for cl in (False, True):
             out.append(assign_case(ts, srcs, cl))
+    # more values than targets: the surplus expressions are still evaluated, and before any store
+    for last in ("a", "b", "c", "ga", "t.x", "ua"):
+        for first in ("a", "b", "t[1]", "ga"):
+            if first == last:
+                continue
+            for extra in (["obs()"], ["ident(%s)" % (last if last in ("a", "b") else "a")], ["obs()", "obs()"], ["f()"], ["(...)"], ["..."]):
+                for cl in (False, True):
+                    out.append(assign_case([first, last], ["k", "K300"] + extra, cl))
+        out.append(assign_case([last], ["k", "obs()"], False))
+        out.append(assign_case([last], ["obs()", "obs()", "k"], True))
     while len(out) < n:
         nt = rng.choice([1, 2, 2, 3, 3])
         ts = rng.sample(TARGETS, nt)
